@@ -13,7 +13,7 @@ import time
 import z3
 
 from . import spec as S
-from .spec import Opt, BoolV, RealV, SliceV, SeqV, TupV, MapV, StrV, NanV, ObjV
+from .spec import Opt, BoolV, RealV, SliceV, SeqV, TupV, MapV, StrV, NanV, ObjV, AbsV
 from .contract import Contract, REGISTRY, for_function
 
 
@@ -85,6 +85,13 @@ class NS:
         return k in object.__getattribute__(self, "_env")
 
 
+def wrap_any(v):
+    try:
+        return wrap(v)
+    except Unsupported:
+        return v
+
+
 def unwrap(v):
     """value as seen by contract code: definite ints as raw z3 terms."""
     if isinstance(v, Opt) and v.definite():
@@ -98,7 +105,7 @@ def unwrap(v):
 
 def wrap(v):
     """contract-level value back into an engine value."""
-    if isinstance(v, (Opt, BoolV, RealV, SliceV, SeqV, TupV, MapV, StrV, NanV, ObjV)):
+    if isinstance(v, (Opt, BoolV, RealV, SliceV, SeqV, TupV, MapV, StrV, NanV, ObjV, AbsV)):
         return v
     if v is None:
         return NONE
@@ -202,6 +209,10 @@ class Exec:
         self.ghosts = {}
         self.nfresh = 0
         self.lemmas_used = []
+        self.havocked = set()
+        self.havoc_map = {ast.unparse(ast.parse(k, mode="eval").body): v
+                          for k, v in (getattr(self.c.cls, "havoc", None) or {}).items()}
+        self.assumed = set()
         self.unsupported = []
         self._prune_solver = None
 
@@ -240,6 +251,12 @@ class Exec:
             return MapV.fresh(f"{base}!{self.nfresh}", ty[4:])
         if ty == "nan":
             return NanV()
+        if ty == "str":
+            self.nfresh += 1
+            return StrV(None, z3.Const(f"{base}!{self.nfresh}", S.StrSort))
+        if ty.startswith("abs:"):
+            self.nfresh += 1
+            return AbsV(z3.Const(f"{base}!{self.nfresh}", S.abs_sort(ty[4:])), ty[4:])
         if ty.startswith("tup:"):
             items = [self.fresh_value(t, f"{base}.{i}", consts) for i, t in enumerate(split_types(ty[4:]))]
             return TupV(items, "tuple")
@@ -250,10 +267,10 @@ class Exec:
             return wrap((consts or self.c.consts)[base])
         if ty.startswith("obj:"):
             cls = ty[4:]
-            fields = {}
-            for fname, fty in self.c.fields.get(cls, {}).items():
-                fields[fname] = self.fresh_value(fty, f"{base}.{fname}", consts)
-            return ObjV(cls, fields)
+            o = ObjV(cls, {})
+            o.base = base
+            o.ex = self
+            return o
         raise Unsupported(f"unknown type {ty!r}")
 
     def havoc_like(self, v, base):
@@ -276,6 +293,18 @@ class Exec:
             return MapV.fresh(f"{base}!{self.nfresh}", v.payload)
         if isinstance(v, TupV):
             return TupV([self.havoc_like(x, f"{base}.{i}") for i, x in enumerate(v.items)], v.kind)
+        if isinstance(v, StrV):
+            self.nfresh += 1
+            return StrV(None, z3.Const(f"{base}!{self.nfresh}", S.StrSort))
+        if isinstance(v, AbsV):
+            self.nfresh += 1
+            return AbsV(z3.Const(f"{base}!{self.nfresh}", S.abs_sort(v.sort)), v.sort)
+        if isinstance(v, ObjV):
+            o = ObjV(v.cls, {})
+            self.nfresh += 1
+            o.base = f"{base}!{self.nfresh}"
+            o.ex = self
+            return o
         raise Unsupported(f"cannot havoc {v!r}")
 
     def hyps(self, st):
@@ -441,6 +470,8 @@ class Exec:
             if isinstance(f.value, ast.Name) and f.value.id in st.env:
                 base = st.env[f.value.id]
                 args = [self.eval(a, st) for a in node.value.args]
+                if f.attr in ("append", "reverse", "extend", "pop", "insert", "remove", "sort", "clear", "update"):
+                    self.check_unaliased(f.value.id, st, node)
                 new = self.mutating_method(base, f.attr, args, st, node)
                 if new is not None:
                     st.env[f.value.id] = new
@@ -487,7 +518,28 @@ class Exec:
             self.assign(node.target, v, st2, node)
             yield ("fall", st2, None)
 
+    def check_unaliased(self, name, st, node):
+        """value semantics are only sound for mutable values reachable from one name."""
+        obj = st.env.get(name)
+        if not isinstance(obj, (SeqV, TupV, MapV)):
+            return
+        if isinstance(obj, (SeqV, TupV)) and obj.kind != "list":
+            return
+
+        def contains(v):
+            if v is obj:
+                return True
+            if isinstance(v, TupV):
+                return any(contains(x) for x in v.items)
+            return False
+
+        for k, v in st.env.items():
+            if k != name and contains(v):
+                raise Unsupported(f"mutation of {name!r} at line {node.lineno} while it is aliased by {k!r}")
+
     def assign(self, tgt, v, st, node):
+        if isinstance(tgt, ast.Subscript) and isinstance(tgt.value, ast.Name) and tgt.value.id in st.env:
+            self.check_unaliased(tgt.value.id, st, node)
         if isinstance(tgt, ast.Name):
             if v == ("emptydict",):
                 ty = getattr(self.c.cls, "locals", {}).get(tgt.id)
@@ -718,7 +770,13 @@ class Exec:
                 items.append(m)
             return TupV(items, a.kind)
         if isinstance(a, StrV):
-            return a if a.s == b.s else None
+            if a.t is None and b.t is None:
+                return a if a.s == b.s else None
+            return StrV(None, z3.If(c, a.term(), b.term()))
+        if isinstance(a, AbsV):
+            return AbsV(z3.If(c, a.t, b.t), a.sort) if a.sort == b.sort else None
+        if isinstance(a, ObjV):
+            return a if a is b else None
         if isinstance(a, NanV):
             return a
         return None
@@ -1070,6 +1128,22 @@ class Exec:
     def eval_paths(self, node, st):
         """evaluate an expression that may contain a contracted call (which can
         split the path into normal return / raise)."""
+        hv = self.havoc_map
+        if hv:
+            src = ast.unparse(node)
+            ty = hv.get(src)
+            if ty and ty.startswith("raise:"):
+                exc, vty = ty[6:].split("|", 1)
+                self.havocked.add(src)
+                s2 = st.copy()
+                s2.trail.append((node.lineno, f"raises {exc}"))
+                val = self.fresh_value(vty, "havoc")
+                hook = (getattr(self.c.cls, "havoc_assume", None) or {}).get(src)
+                if hook is not None:
+                    hook(self, st, val)
+                yield ("val", st, val)
+                yield ("raise", s2, (exc, node.lineno))
+                return
         if isinstance(node, ast.Call) and self.is_contract_call(node, st):
             yield from self.eval_call_paths(node, st)
             return
@@ -1107,7 +1181,11 @@ class Exec:
         if isinstance(v, NanV):
             return z3.BoolVal(True)
         if isinstance(v, StrV):
+            if v.t is not None:
+                raise Unsupported("truth of a symbolic string")
             return z3.BoolVal(bool(v.s))
+        if v == ("emptydict",):
+            return z3.BoolVal(False)
         raise Unsupported(f"truth of {v!r}")
 
     def eval_bool(self, node, st, static_only=False):
@@ -1142,6 +1220,13 @@ class Exec:
         return self.truth(self.eval(node, st))
 
     def eval(self, node, st):
+        hv = self.havoc_map
+        if hv:
+            src = ast.unparse(node)
+            if src in hv:
+                # declared abstraction: this side-effect-free expression may take any value of its type
+                self.havocked.add(src)
+                return self.fresh_value(hv[src], "havoc")
         m = getattr(self, "expr_" + type(node).__name__, None)
         if m is None:
             raise Unsupported(f"expression {type(node).__name__} at line {getattr(node, 'lineno', '?')}")
@@ -1412,7 +1497,13 @@ class Exec:
             b = b if isinstance(b, Opt) else I(S.as_int(b))
             return S.opt_eq(a, b)
         if isinstance(a, StrV) and isinstance(b, StrV):
-            return z3.BoolVal(a.s == b.s)
+            if a.t is None and b.t is None:
+                return z3.BoolVal(a.s == b.s)
+            return a.term() == b.term()
+        if isinstance(a, AbsV) and isinstance(b, AbsV) and a.sort == b.sort:
+            return a.t == b.t
+        if isinstance(a, ObjV) and isinstance(b, ObjV):
+            raise Unsupported("== between opaque objects")
         if isinstance(a, RealV) or isinstance(b, RealV):
             x = a.t if isinstance(a, RealV) else z3.ToReal(S.as_int(self.need_int(a, st, node)))
             y = b.t if isinstance(b, RealV) else z3.ToReal(S.as_int(self.need_int(b, st, node)))
@@ -1445,10 +1536,20 @@ class Exec:
         if isinstance(v, SliceV) and node.attr in ("start", "stop", "step"):
             return getattr(v, node.attr)
         if isinstance(v, ObjV):
-            if node.attr in v.fields:
-                return v.fields[node.attr]
-            raise Unsupported(f"field {node.attr!r} of {v.cls} not declared (line {node.lineno})")
+            return self.obj_field(v, node.attr, node)
         raise Unsupported(f"attribute .{node.attr} on {v!r} line {node.lineno}")
+
+    def obj_field(self, v, attr, node=None):
+        """fields of opaque records are created on first access from the declared type
+        (an object is an immutable record: the same field always yields the same value)."""
+        if attr in v.fields:
+            return v.fields[attr]
+        decl = self.c.fields.get(v.cls, {})
+        if attr not in decl:
+            raise Unsupported(f"field {attr!r} of {v.cls} not declared (line {getattr(node, 'lineno', '?')})")
+        val = self.fresh_value(decl[attr], f"{getattr(v, 'base', v.cls)}.{attr}")
+        v.fields[attr] = val
+        return val
 
     def expr_Subscript(self, node, st):
         base = self.eval(node.value, st)
@@ -1720,6 +1821,12 @@ class Exec:
     # builtins -------------------------------------------------------------------
     def builtin_call(self, node, name, st):
         from . import builtins as B
+        ext = getattr(self.c.cls, "externals", None)
+        if ext and name in ext:
+            args = [self.eval(a, st) for a in node.args]
+            kwargs = {k.arg: self.eval(k.value, st) for k in node.keywords}
+            self.assumed.add(f"{name}: {(ext[name].__doc__ or '').strip()}")
+            return wrap_any(ext[name](self, st, args, kwargs, node))
         return B.call(self, node, name, st)
 
 
